@@ -21,6 +21,7 @@ func init() {
 		Rule: "streams synthesised block by block from a grammar: (A) one dynamic block for every (literal/length shape x distance shape x header encoding) of the catalogue with every symbol sequence of length <=k over the per-code alphabet, bare / padded past the assembly loop's entry conditions / after a 64 KiB+ prefix; (B) the same over the fixed code; " +
 			"(C) stored blocks of length 0,1,2,65535 at all 8 bit offsets; (D) every ordered pair of code shapes in consecutive blocks; (E) 2000 tiny blocks in a row; (F) streams made by compress/flate (levels 0,1,6,9,-2) and by fastgo (accelerated levels) over the data pieces; " +
 			"(H) window-fill straddle: a stored prefix ending j bytes (16 values 0..259) before the decoder's 64 KiB output window fills (65536 and 98304), then 0-2 literals, a match of length {3,4,17,18,257,258} and distance {1,2,3,15,16,17,31,32,33,100,257,258,259,4096,32768} in a non-final fixed or short-code dynamic block (packed literal+length table entries), so that literals, packed entries and copies straddle the fill point; " +
+			"(I) small-distance sweep: every distance 1..64 x 19 lengths around the 16/32-byte vector widths, after `distance` distinct literals and followed by 300 literals (decoded inside the assembly loop); " +
 			"(G) single-match sweep: every length 3..258 (both encodings of 258) x first and last distance of every distance symbol; each x 6 Read-size policies; only streams compress/flate accepts are in scope; non-trivial = the stream has at least one symbol besides end-of-block",
 		Assumptions: []string{"compress/flate defines the expected result", "reference inflater agrees with compress/flate on every stream (checked on every execution; disagreement is a harness error)"},
 		Quick:       TierSpec{MaxDev: -1, Shards: 4, ShardDepth: 3, BudgetS: 150},
@@ -132,7 +133,7 @@ func padSyms(alpha []synth.Sym) []synth.Sym {
 
 // choose builds one valid stream from engine choices. ok=false means the combination is not expressible.
 func (g *streamGen) choose(x *mc.Exec, k int) (stream []byte, name string, ok bool) {
-	fam := x.Choose(8, "family")
+	fam := x.Choose(9, "family")
 	switch fam {
 	case 0, 1: // A: dynamic block; B: fixed block
 		var blk synth.Block
@@ -274,6 +275,24 @@ func (g *streamGen) choose(x *mc.Exec, k int) (stream []byte, name string, ok bo
 		es := g.encoderStreams()
 		e := es[x.Choose(len(es), "encoded")]
 		return e.stream, e.name, true
+	case 8: // I: small-distance sweep: every distance 1..64 x lengths around the vector widths, decoded inside the assembly loop
+		d := 1 + x.Choose(64, "dist")
+		L := []int{3, 4, 7, 8, 9, 15, 16, 17, 18, 31, 32, 33, 34, 47, 48, 64, 100, 257, 258}[x.Choose(19, "len")]
+		dyn := x.Choose(2, "code")
+		blk := synth.Block{Final: true, Type: 1}
+		if dyn == 1 {
+			blk = synth.Block{Final: true, Type: 2, LitLens: g.lits[0].Lens, DistLens: g.dists[4].Lens, Enc: synth.EncRepeat}
+		}
+		var syms []synth.Sym
+		for i := 0; i < d; i++ {
+			syms = append(syms, synth.Sym{Kind: synth.SymLit, Lit: 33 + (i*7)%90})
+		}
+		syms = append(syms, synth.Sym{Kind: synth.SymMatch, Len: L, Dist: d})
+		for i := 0; i < 300; i++ {
+			syms = append(syms, synth.Sym{Kind: synth.SymLit, Lit: 40 + (i*13)%80})
+		}
+		blk.Syms = syms
+		return synth.Build(blk), fmt.Sprintf("smalldist(len=%d,dist=%d) code=%d", L, d, dyn), true
 	case 7: // H: symbols straddling the points where the 64 KiB internal output window fills (65536, then every 32768)
 		ws, name := g.windowFill(x)
 		return ws, name, true
